@@ -137,7 +137,7 @@ func buildModules(root string) []string {
 //	       (and with -graph first  G <label> <root> <heap>, flushed BEFORE the real code is called)
 //	build  load; run every function target; print the events, then  R <label> <sha256 of the stored stamp>
 //	       and  F lines as above, computed after the build
-func childMain(mode, root, order string, graph, full bool, flags []string) int {
+func childMain(mode, root, order string, graph, full, wire bool, flags []string) int {
 	debug.SetMaxStack(256 << 20)
 	// address-space limit: a runaway allocation must kill this process, not the machine
 	lim := syscall.Rlimit{Cur: 6 << 30, Max: 6 << 30}
@@ -216,10 +216,19 @@ func childMain(mode, root, order string, graph, full bool, flags []string) int {
 			fmt.Fprintf(out, "G\t%s\t%s\t%s\t%s\n", t.Label(), x.fixRoot(r), x.heap(), x.note())
 			out.Flush() // the parent must see the graph even if the real code kills the process
 		}
+		var wx *extractor
+		var wroot string
+		if wire {
+			wx = newExtractor()
+			wroot = wx.val(fn)
+		}
 		_, raw, err := dawn.VerifFunctionEnv(fn)
 		if err != nil {
 			fmt.Fprintf(out, "F\t%s\terror\t%s\n", t.Label(), oneLine(err.Error()))
 			continue
+		}
+		if wire && len(wx.notes) == 0 && dawn.VerifVariant == "fixed" {
+			fmt.Fprintf(out, "W\t%s\t%s\n", t.Label(), oneLine(checkWiring(wx, wroot, raw, true)))
 		}
 		sum := sha256.Sum256(raw)
 		if full {
